@@ -97,6 +97,30 @@ func floatBinop(op token.Token, x, y value) value {
 func intModeBinop(op token.Token, x, y value) value {
 	k := kindOfValue(x)
 	a, b := termOf(x), termOf(y)
+	if a.Op == "const" && b.Op == "const" {
+		// both concrete: fold (mathematical integers; callers stay far from the int64 range)
+		av, bv := int64(a.Val), int64(b.Val)
+		switch op {
+		case token.ADD:
+			return mkScalar(IConst(av+bv), k)
+		case token.SUB:
+			return mkScalar(IConst(av-bv), k)
+		case token.MUL:
+			return mkScalar(IConst(av*bv), k)
+		case token.LSS:
+			return av < bv
+		case token.LEQ:
+			return av <= bv
+		case token.GTR:
+			return av > bv
+		case token.GEQ:
+			return av >= bv
+		case token.EQL:
+			return av == bv
+		case token.NEQ:
+			return av != bv
+		}
+	}
 	switch op {
 	case token.ADD:
 		return symv{arith("+", IntSort, a, b), k}
@@ -105,6 +129,10 @@ func intModeBinop(op token.Token, x, y value) value {
 	case token.MUL:
 		return symv{arith("*", IntSort, a, b), k}
 	case token.SHL:
+		// a symbolic count that the path condition forces to be >= 64 shifts everything out
+		if b.Op != "const" && kindWidth(k) == 64 && !X.feasible(arith("<", BoolSort, b, IConst(64))) {
+			return mkScalar(IConst(0), k)
+		}
 		// shift by a concrete count with two's-complement wrap-around of the 64-bit result
 		if b.Op == "const" && kindWidth(k) == 64 {
 			cnt := b.Val
@@ -178,16 +206,28 @@ func init() {
 	symExternals[rtPkg+"ExactEnd"] = func(fr *frame, args []value) value { X.ExactFloat = false; return nil }
 	symExternals[rtPkg+"Float01"] = func(fr *frame, args []value) value {
 		t := X.fresh(labelOf(args[0]), RealSort)
+		X.InputLog = append(X.InputLog, InputRec{K: "float", L: labelOf(args[0]), Vars: []string{t.Name}})
+		if X.Pin != nil {
+			return X.Pin.FValues[t.Name]
+		}
 		X.addPC(arith("<=", BoolSort, RConst(0), t), arith("<", BoolSort, t, RConst(1)))
 		return symf{t}
 	}
 	symExternals[rtPkg+"FloatIn"] = func(fr *frame, args []value) value {
 		t := X.fresh(labelOf(args[0]), RealSort)
+		X.InputLog = append(X.InputLog, InputRec{K: "float", L: labelOf(args[0]), Vars: []string{t.Name}})
+		if X.Pin != nil {
+			return X.Pin.FValues[t.Name]
+		}
 		X.addPC(arith("<=", BoolSort, RConst(args[1].(float64)), t), arith("<=", BoolSort, t, RConst(args[2].(float64))))
 		return symf{t}
 	}
 	symExternals["math/rand.Float64"] = func(fr *frame, args []value) value {
 		t := X.fresh("rand.Float64", RealSort)
+		X.InputLog = append(X.InputLog, InputRec{K: "float", L: "rand.Float64", Vars: []string{t.Name}})
+		if X.Pin != nil {
+			return X.Pin.FValues[t.Name]
+		}
 		X.addPC(arith("<=", BoolSort, RConst(0), t), arith("<", BoolSort, t, RConst(1)))
 		return symf{t}
 	}
